@@ -653,14 +653,14 @@ def strategies(special=False):
         dd = sorted(k for k in tree.dirs if k == 'D' or k.startswith('D/'))
 
         def a_src():
-            kind = draw(st.sampled_from(['file', 'file', 'dir', 'dir', 'dir', 'missing']))
+            kind = draw(st.sampled_from(['file', 'dir', 'file', 'dir', 'dir', 'file', 'dir', 'file', 'dir', 'missing']))
             if kind == 'file' and sf:
                 s = draw(st.sampled_from(sf))
             elif kind == 'dir' or (kind == 'file' and not sf):
                 s = draw(st.sampled_from(sd))
             else:
                 s = draw(st.sampled_from(sd + sf)) + '/' + draw(st.sampled_from(['zz', 'a', 'nope']))
-            if draw(st.integers(0, 4)) == 0:
+            if draw(st.sampled_from([False, False, False, False, False, True])):
                 s += '/'
             return s
 
@@ -678,7 +678,7 @@ def strategies(special=False):
                 d = draw(st.sampled_from(df)) + '/under'
             else:
                 d = 'D'
-            if draw(st.integers(0, 3)) == 0:
+            if draw(st.sampled_from([False, False, False, True])):
                 d += '/'
             return d
 
@@ -686,13 +686,15 @@ def strategies(special=False):
         nx = 1 if form == 'single' else draw(st.integers(1, 3))
         xfers = []
         for _ in range(nx):
-            if draw(st.integers(0, 2)) == 0:
+            if draw(st.sampled_from([False, False, True])):
                 src = [a_src() for _ in range(draw(st.integers(1, 3)))]
+                mode = draw(st.sampled_from([DEST_DIR, INFER_DEST, DEST_DIR, INFER_DEST, DEST_DIR, INFER_DEST, DEST_IS_TARGET]))
             else:
                 src = a_src()
-            xfers.append(dict(src=src, dest=a_dest(), mode=draw(st.sampled_from(MODES))))
+                mode = draw(st.sampled_from(MODES))
+            xfers.append(dict(src=src, dest=a_dest(), mode=mode))
         case['form'] = form
-        case['rex'] = draw(st.integers(0, 3 if form == 'single' else 11)) == 0
+        case['rex'] = draw(st.sampled_from([False] * (3 if form == 'single' else 11) + [True]))
         case['xfers'] = xfers
         return case
 
@@ -759,11 +761,15 @@ def run_shard(spec, seed, tier):
 
 
 def _has_special(case):
-    txt = repr([e[0] for e in case['files']]) + repr(case.get('dirs')) + repr(case['xfers'])
-    return any(ch in txt for ch in '#?;%&+ ')
+    names = [e[0] for e in case['files']] + list(case.get('dirs') or [])
+    for x in case['xfers']:
+        names += (x['src'] if isinstance(x['src'], list) else [x['src']]) + [x['dest']]
+    return any(ch in nm for nm in names for ch in '#?;%&+ ')
 
 
 def _check_special(case):
+    if case.get('rex') and case['form'] == 'list':
+        case = dict(case, rex=False)
     nt, cls, fl = check_case(case)
     if _has_special(case):
         cls = list(cls) + ['special_char_name']
